@@ -285,6 +285,26 @@ def op_add_connector(run):
     return where
 
 
+def op_connect(run):
+    """begin_connect / end_connect in either order (glue a connector to shapes)."""
+    r = run.rnd
+    s = a_slide(run)
+    shs = [sh for sh in s.shapes if sh.__class__.__name__ in ("Shape", "Picture")]
+    while len(shs) < 2:
+        shs.append(s.shapes.add_shape(1, *geom(run)))
+    cons = [sh for sh in s.shapes if sh.__class__.__name__ == "Connector"]
+    if not cons or r.random() < 0.3:
+        from pptx.enum.shapes import MSO_CONNECTOR
+
+        cons.append(s.shapes.add_connector(MSO_CONNECTOR.STRAIGHT, 0, 0, 914400, 914400))
+    c = r.choice(cons)
+    order = r.choice(["end", "begin", "end-begin", "begin-end"])
+    for side in order.split("-"):
+        (c.end_connect if side == "end" else c.begin_connect)(r.choice(shs), r.randrange(4))
+    run.acc.hit("connector.connect:" + order)
+    return order
+
+
 def op_add_group(run):
     s, shapes, where = a_container(run)
     members = []
@@ -908,6 +928,7 @@ ALL_OPS = {
     "add_picture_notimage": (op_add_picture_notimage, _pil_exc()),
     "add_connector": (op_add_connector, NONE),
     "add_group": (op_add_group, NONE),
+    "connect": (op_connect, NONE),
     "add_freeform": (op_add_freeform, NONE),
     "add_chart": (op_add_chart, NONE),
     "add_table": (op_add_table, NONE),
@@ -945,7 +966,7 @@ PROFILES = {
     },
     # C03: XML mutators
     "xml": {
-        "add_slide": 4, "add_shape": 4, "add_textbox": 4, "add_picture": 3, "add_connector": 2, "add_group": 2, "add_freeform": 2, "add_chart": 5,
+        "add_slide": 4, "add_shape": 4, "add_textbox": 4, "add_picture": 3, "add_connector": 2, "connect": 3, "add_group": 2, "add_freeform": 2, "add_chart": 5,
         "add_table": 4, "add_movie": 1, "add_ole": 1, "ph_insert": 3, "text_assign": 8, "text_struct": 5, "font": 8, "paragraph_fmt": 6,
         "textframe_fmt": 6, "run_hyperlink": 3, "fill": 10, "line": 5, "shadow": 2, "click_action": 3, "table": 9, "picture": 4, "autoshape": 8,
         "chart_replace": 3, "chart_fmt": 14, "notes": 3, "slide_name": 1, "core_prop": 1, "save_stream": 1, "remove_layout": 1, "slide_index_bad": 1,
